@@ -45,14 +45,13 @@ def main():
             for c in checks:
                 t0 = time.time()
                 rc = subprocess.run([f'{VERIF}/check', c, '--tier', tier], cwd=VERIF,
-                                    env=dict(os.environ, VERIF_REPO=wt), capture_output=True, text=True)
+                                    env=dict(os.environ, VERIF_REPO=wt, VERIF_EVIDENCE_DIR=wt + '/_evidence'),
+                                    capture_output=True, text=True)   # evidence of a run against a patched copy is not evidence
                 lines = [l for l in rc.stdout.splitlines() if l.startswith(('VIOLATION', '  key=', 'MACHINERY', 'KNOWN'))]
                 out[f'check_{c}'] = {'exit': rc.returncode, 'wall_s': round(time.time() - t0), 'lines': lines[:12]}
     finally:
         sh(f'git -C /repo worktree remove --force {wt}')
         shutil.rmtree(wt, ignore_errors=True)
-        # the evidence files were rewritten by the run against the patched copy: restore from git
-        sh(f'git -C {VERIF} checkout -- evidence')
     print(json.dumps(out, indent=1))
     if keep:
         d = os.path.join(VERIF, 'seeded', keep)
